@@ -93,12 +93,13 @@ type Stored struct {
 
 // Engine describes the engine-level sub-check.
 type Engine struct {
-	Mode     string `json:"mode"`              // valid | invalid
-	ValLen   int    `json:"val_len"`           // value length of the filling writes
-	PreFlush bool   `json:"pre_flush"`         // invalid: flush explicitly before closing so table files exist
-	AllTrunc bool   `json:"all_trunc"`         // invalid: every strict prefix of the manifest
-	Damage   []Mut  `json:"damage,omitempty"`  // invalid: further damaged manifests (each tried separately)
-	Reopens  int    `json:"reopens,omitempty"` // valid: number of close/reopen rounds (>=1)
+	Mode     string `json:"mode"`                // valid | invalid | created
+	PathForm string `json:"path_form,omitempty"` // created: absolute | relative | dot_relative | unclean
+	ValLen   int    `json:"val_len"`             // value length of the filling writes
+	PreFlush bool   `json:"pre_flush"`           // invalid: flush explicitly before closing so table files exist
+	AllTrunc bool   `json:"all_trunc"`           // invalid: every strict prefix of the manifest
+	Damage   []Mut  `json:"damage,omitempty"`    // invalid: further damaged manifests (each tried separately)
+	Reopens  int    `json:"reopens,omitempty"`   // valid: number of close/reopen rounds (>=1)
 }
 
 // Case is one generated case.
@@ -685,6 +686,9 @@ func runCase(c *Case) *Fail {
 		if c.Engine != nil && c.Engine.Mode == "valid" {
 			return runEngineValid(c)
 		}
+		if c.Engine != nil && c.Engine.Mode == "created" {
+			return runEngineCreated(c)
+		}
 		return runEngineInvalid(c)
 	}
 	panic("unknown case kind " + c.Kind)
@@ -704,7 +708,7 @@ func TestPropAssign(t *testing.T) {
 	rapid.Check(t, func(t *rapid.T) {
 		mode := rapid.SampledFrom([]string{"single", "single", "single", "few", "few", "all", "all"}).Draw(t, "mode")
 		c := Case{Kind: "assign", Sets: genSets(t, mode),
-			Dir: rapid.SampledFrom([]string{"fresh", "empty", "existing"}).Draw(t, "dir")}
+			Dir: rapid.SampledFrom([]string{"fresh", "empty", "existing", "stale_tmp"}).Draw(t, "dir")}
 		check(t, &c)
 	})
 }
